@@ -210,7 +210,9 @@ type sessSys struct {
 	poisoned bool // a panic happened in this instance: the real process would be dead
 	// poisonOnViolation makes a state in which an oracle failed terminal (its successors would only repeat the finding)
 	poisonOnViolation bool
-	confirming        bool // an oracle is executing a confirmation request (oracles do not recurse)
+	confirming        bool                         // an oracle is executing a confirmation request (oracles do not recurse)
+	preStep           func(s *sessSys, r *sessReq) // called before a request is injected
+	emEarly           int                          // C14: end markers found queued while datapath commands were still arriving
 }
 
 func (s *sessSys) close() { s.in.close() }
@@ -289,6 +291,9 @@ func (s *sessSys) exec(r *sessReq) *stepCtx {
 		ctx.cmd0 = s.in.fb.ncommands()
 	} else if s.in.p4 != nil {
 		ctx.cmd0 = s.in.p4.nwrites()
+	}
+	if s.preStep != nil {
+		s.preStep(s, r)
 	}
 	ctx.out, ctx.pframe, ctx.pmsg = s.in.inject(r.Conn, ctx.msg.marshal())
 	if ctx.pframe != "" {
